@@ -1,0 +1,23 @@
+//go:build verif
+
+package vm
+
+import "github.com/go-python/gpython/py"
+
+// VerifInstr, when set, is called before every instruction is fetched
+// (exit == false; frame.Lasti is the offset of the instruction about to run)
+// and once when RunFrame leaves its loop (exit == true; why is the VM status:
+// 1 exception, 2 return, 5 yield, ...). It may block.
+var VerifInstr func(frame *py.Frame, exit bool, why int)
+
+func (vm *Vm) verifPre() {
+	if f := VerifInstr; f != nil {
+		f(vm.frame, false, int(vm.why))
+	}
+}
+
+func (vm *Vm) verifExit() {
+	if f := VerifInstr; f != nil {
+		f(vm.frame, true, int(vm.why))
+	}
+}
